@@ -9,6 +9,7 @@ import (
 	"go/types"
 	"os"
 	"os/exec"
+	"os/signal"
 	"path/filepath"
 	"regexp"
 	"runtime"
@@ -67,11 +68,23 @@ func harnessFiles(prop string) ([]HarnessFile, error) {
 		return nil, err
 	}
 	var out []HarnessFile
+	var paths []string
 	for _, en := range ents {
-		if !strings.HasSuffix(en.Name(), ".go") {
-			continue
+		if en.Name() == "include.txt" {
+			b, _ := os.ReadFile(filepath.Join(dir, en.Name()))
+			for _, l := range strings.Split(string(b), "\n") {
+				l = strings.TrimSpace(l)
+				if l != "" && !strings.HasPrefix(l, "#") {
+					paths = append(paths, filepath.Join(dir, l))
+				}
+			}
 		}
-		p := filepath.Join(dir, en.Name())
+		if strings.HasSuffix(en.Name(), ".go") {
+			paths = append(paths, filepath.Join(dir, en.Name()))
+		}
+	}
+	for _, p := range paths {
+		en := fileName(p)
 		b, err := os.ReadFile(p)
 		if err != nil {
 			return nil, err
@@ -81,10 +94,12 @@ func harnessFiles(prop string) ([]HarnessFile, error) {
 			return nil, fmt.Errorf("%s: missing //verif:pkg directive", p)
 		}
 		pkg := string(m[1])
-		out = append(out, HarnessFile{Src: p, Pkg: pkg, Overlay: filepath.Join(repoDir, pkg, "zz_verif_"+prop+"_"+en.Name())})
+		out = append(out, HarnessFile{Src: p, Pkg: pkg, Overlay: filepath.Join(repoDir, pkg, "zz_verif_"+prop+"_"+en)})
 	}
 	return out, nil
 }
+
+func fileName(p string) string { return filepath.Base(p) }
 
 func overlayMap(files []HarnessFile) map[string][]byte {
 	ov := map[string][]byte{}
@@ -533,6 +548,9 @@ func runParent(prop, tier, only string, jobs int, list bool, seed int) int {
 	metas := findHarnesses(pkgs, files)
 	var sel []HarnessMeta
 	for _, m := range metas {
+		if !strings.HasPrefix(m.Name, "Verif"+prop+"_") {
+			continue // harness of another property sharing this file
+		}
 		if only != "" && m.Name != only {
 			continue
 		}
@@ -560,6 +578,19 @@ func runParent(prop, tier, only string, jobs int, list bool, seed int) int {
 	os.MkdirAll(outDir, 0o755)
 	self, _ := os.Executable()
 	results := make([]*HarnessResult, len(sel))
+	var pmu sync.Mutex
+	pgids := map[int]bool{}
+	sigc := make(chan os.Signal, 1)
+	signal.Notify(sigc, syscall.SIGTERM, syscall.SIGINT)
+	go func() {
+		<-sigc
+		pmu.Lock()
+		for p := range pgids {
+			syscall.Kill(-p, syscall.SIGKILL)
+		}
+		pmu.Unlock()
+		os.Exit(2)
+	}()
 	var wg sync.WaitGroup
 	sem := make(chan struct{}, jobs)
 	for i, m := range sel {
@@ -585,6 +616,9 @@ func runParent(prop, tier, only string, jobs int, list bool, seed int) int {
 			err := cmd.Start()
 			timedOut := false
 			if err == nil {
+				pmu.Lock()
+				pgids[cmd.Process.Pid] = true
+				pmu.Unlock()
 				done := make(chan error, 1)
 				go func() { done <- cmd.Wait() }()
 				select {
